@@ -425,6 +425,66 @@ def r12_l(run, fx, floors):
         run.anchor_missing(rule, "%d variation table readers (found %d)" % (len(VAR_LAYOUTS), n))
 
 
+# MVAR value tags (OpenType MVAR, "Value tags") -> the word the name of the varied field must contain
+MVAR_TAGS = {
+    "hasc": "typoascender", "hdsc": "typodescender", "hlgp": "typolinegap", "hcla": "winascent", "hcld": "windescent",
+    "vasc": "ascender", "vdsc": "descender", "vlgp": "linegap", "hcrs": "caretsloperise", "hcrn": "caretsloperun", "hcof": "caretoffset",
+    "vcrs": "caretsloperise", "vcrn": "caretsloperun", "vcof": "caretoffset", "xhgt": "xheight", "cpht": "capheight",
+    "sbxs": "subscriptxsize", "sbys": "subscriptysize", "sbxo": "subscriptxoffset", "sbyo": "subscriptyoffset",
+    "spxs": "superscriptxsize", "spys": "superscriptysize", "spxo": "superscriptxoffset", "spyo": "superscriptyoffset",
+    "strs": "strikeoutsize", "stro": "strikeoutposition", "unds": "underlinethickness", "undo": "underlineposition",
+}
+MVAR_CONTAINERS = ("value_tag", "header", "version0", "version1", "version2to4", "version5")
+
+
+def r12_m(run, fx):
+    rule = "R12-M"
+    run.rule(rule, "MVAR: each value tag varies the field the specification assigns to it (hasc -> OS/2.sTypoAscender ... spyo -> OS/2.ySuperscriptYOffset, "
+                   "undo -> post.underlinePosition): in the arm of process_mvar for a tag, the field that is written and the field its old value is "
+                   "read from both carry the tag's meaning in their name")
+    b = fx.body("variations::process_mvar")
+    if b is None:
+        return run.anchor_missing(rule, "variations::process_mvar")
+    prov = sym.Prov(b)
+    sws = [(bi, b.term(bi)) for bi in range(len(b.blocks)) if b.reachable(bi) and b.term(bi)["k"] == "switch" and b.term(bi).get("dty") == "u32" and len(b.term(bi)["arms"]) >= 10]
+    if not sws:
+        return run.anchor_missing(rule, "switch on the value tag in process_mvar")
+    seen = set()
+    for bi, t in sws:
+        for val, tgt in t["arms"]:
+            try:
+                tagname = val.to_bytes(4, "big").decode("latin1")
+            except (OverflowError, AttributeError):
+                continue
+            kw = MVAR_TAGS.get(tagname)
+            if kw is None:
+                continue
+            seen.add(tagname)
+            names = set()
+            for i in range(len(b.blocks)):
+                if not (b.reachable(i) and b.dominates(tgt, i)):
+                    continue
+                for st in b.stmts(i):
+                    if st["k"] == "assign" and st["p"]["p"]:
+                        fs = [e.get("n") for e in st["p"]["p"] if isinstance(e, dict) and e.get("n")]
+                        if fs:
+                            names.add(fs[-1])
+                            for x in sym.walk(prov.rvalue(st["rv"])):
+                                if x[0] == "field" and isinstance(x[2], str) and not x[2].isdigit():
+                                    names.add(x[2])
+            names -= set(MVAR_CONTAINERS)
+            wrong = sorted(n_ for n_ in names if kw not in n_.replace("_", "").lower())
+            if not names:
+                run.fail(rule, "mvar:%s" % tagname, "the arm of process_mvar for '%s' varies nothing" % tagname, b.loc(t))
+            elif wrong:
+                run.fail(rule, "mvar:%s" % tagname, "the arm of process_mvar for '%s' touches %s; the specification assigns this tag to the %s field" % (tagname, wrong, kw), b.loc(t))
+            else:
+                run.ok(rule, "'%s' varies %s" % (tagname, sorted(names)))
+    missing = sorted(set(MVAR_TAGS) - seen)
+    if missing:
+        run.fail(rule, "mvar:missing", "process_mvar has no arm for the value tags %s" % missing, "%s:%s" % (b.file, b.line))
+
+
 def check(run, fx, tier, floors=True):
     if floors or fx.body("<tables::variable_fonts::mvar::MvarTable<'_> as binary::read::ReadBinary>::read") is not None:
         r12_s(run, fx)
@@ -434,6 +494,8 @@ def check(run, fx, tier, floors=True):
         import speclayout
         speclayout.rule_records(run, fx, "R12-R", ["variations"], floors)
     r12_t(run, fx, floors)
+    if floors or fx.body("variations::process_mvar") is not None:
+        r12_m(run, fx)
     r12_v(run, fx)
     r12_d(run, fx)
     r12_f(run, fx, floors)
